@@ -9,6 +9,7 @@ import (
 	"runtime"
 	"sync"
 	"testing"
+	"time"
 
 	"github.com/ipld/go-ipld-prime/codec/dagcbor"
 	"github.com/ipld/go-ipld-prime/codec/dagjson"
@@ -79,7 +80,7 @@ type C20Named struct {
 	L []string
 }
 
-const c20NumOps = 16
+const c20NumOps = 17
 
 func c20Setup() (*c20Shared, error) {
 	c20Once.Do(func() {
@@ -411,6 +412,15 @@ func c20Do(s *c20Shared, op, step, gid int) error {
 			_ = m.TypeKind()
 		}
 		_ = s.ts.Names()
+	case 16: // a binding call that inference refuses (by panicking): others' bindings must be unaffected, nothing may hang
+		func() {
+			defer func() { _ = recover() }()
+			if step%2 == 0 {
+				_ = bindnode.Wrap(&struct{ C complex128 }{}, nil)
+			} else {
+				_ = bindnode.Prototype((*struct{ Ch chan int })(nil), nil)
+			}
+		}()
 	case 15: // compile the shared selector spec again
 		if _, err := selector.CompileSelector(s.specNode); err != nil {
 			return err
@@ -456,7 +466,13 @@ func c20Check(c C20Case, rec *evid.Rec) error {
 		}(g, ops)
 	}
 	close(start)
-	wg.Wait()
+	done := make(chan struct{})
+	go func() { wg.Wait(); close(done) }()
+	select {
+	case <-done:
+	case <-time.After(180 * time.Second):
+		return fmt.Errorf("the round did not terminate within 180 s: some goroutine is blocked (operations are all finite)")
+	}
 	for _, e := range errs {
 		if e != nil {
 			return e
@@ -489,7 +505,7 @@ func c20Check(c C20Case, rec *evid.Rec) error {
 
 var c20Part = evid.Part[C20Case]{
 	Prop: "C20", Name: "concurrent", Quick: 150, Thorough: 15000,
-	Rule: "round: 2-24 goroutines each run a drawn sequence of ≤40 read-only operations on objects created once and shared (basicnode / bindnode / generated nodes with their representation views, plain and reader-backed bytes nodes, a compiled selector, a traversal configuration and link system over a read-only store, a type system, bindnode and generated prototypes, the default codec registry): full reads, DeepEqual, Copy, encode, ComputeLink, Load, LoadRaw, WalkAdv, WalkMatching, Get, building from shared prototypes, Wrap/Prototype with explicit and inferred schemas, registry look-ups, schema type methods, selector compilation; built with the race detector, varied GOMAXPROCS and injected Gosched; every result must equal the sequentially computed one; non-trivial = ≥2 goroutines performed the same class of operation on the shared objects; sampled schedules, distinct by the operation matrix",
+	Rule: "round: 2-24 goroutines each run a drawn sequence of ≤40 read-only operations on objects created once and shared (basicnode / bindnode / generated nodes with their representation views, plain and reader-backed bytes nodes, a compiled selector, a traversal configuration and link system over a read-only store, a type system, bindnode and generated prototypes, the default codec registry): full reads, DeepEqual, Copy, encode, ComputeLink, Load, LoadRaw, WalkAdv, WalkMatching, Get, building from shared prototypes, Wrap/Prototype with explicit and inferred schemas, registry look-ups, schema type methods, selector compilation, binding calls that inference refuses; built with the race detector, varied GOMAXPROCS and injected Gosched; every result must equal the sequentially computed one; non-trivial = ≥2 goroutines performed the same class of operation on the shared objects; sampled schedules, distinct by the operation matrix",
 	Gen: func(t *rapid.T) C20Case {
 		g := rapid.IntRange(2, 24).Draw(t, "goroutines")
 		c := C20Case{Procs: rapid.SampledFrom([]int{0, 1, 2, 4, 16}).Draw(t, "procs"), Yield: rapid.SliceOfN(rapid.IntRange(0, 39), 0, 8).Draw(t, "yield")}
